@@ -271,24 +271,32 @@ fn gen_statements(fields: &Fields, encoding: Encoding) -> syn::Result<proc_macro
                 if let Some(p) = cd.to_nil_path() {
                     quote! {
                         Err(e) if e.is_unknown_variant() && #p().is_some() => {
+                            __d777.set_position(__p779);
                             __d777.skip()?
                         }
                     }
                 } else if is_option(&field.typ, |_| true) {
                     quote! {
-                        Err(e) if e.is_unknown_variant() => __d777.skip()?,
+                        Err(e) if e.is_unknown_variant() => {
+                            __d777.set_position(__p779);
+                            __d777.skip()?
+                        }
                     }
                 } else {
                     quote!()
                 }
             } else if is_option(&field.typ, |_| true) {
                 quote! {
-                    Err(e) if e.is_unknown_variant() => __d777.skip()?,
+                    Err(e) if e.is_unknown_variant() => {
+                        __d777.set_position(__p779);
+                        __d777.skip()?
+                    }
                 }
             } else {
                 let ty = &field.typ;
                 quote! {
                     Err(e) if e.is_unknown_variant() && <#ty as minicbor::Decode::<Ctx>>::nil().is_some() => {
+                        __d777.set_position(__p779);
                         __d777.skip()?
                     }
                 }
@@ -312,6 +320,7 @@ fn gen_statements(fields: &Fields, encoding: Encoding) -> syn::Result<proc_macro
             let name = &field.ident;
 
             quote! {{
+                let __p779 = __d777.position();
                 #tag
                 match #decode_fn(__d777, __ctx777) {
                     Ok(__v777) => #name = #value,
